@@ -219,13 +219,13 @@ func init() {
 		core.RunLeg(c, core.Leg[engCase]{
 			Name: "N", Kind: "oracle(naive-scan)",
 			Rule: "patterns: 70% random full-syntax ASTs (half of them prefixed with the shapes the search modes recognise: literal / alternation-of-literals prefix, set at a fixed offset, literal after a leading loop, leading and trailing anchors, fixed length, leading loops, leading lookahead), 30% literals harvested from the repository's tests and corpora that compile; options random incl. RightToLeft/ECMAScript/RE2, code-gen analysis on 1/3, bitmap off 1/4; 8 inputs per pattern (pattern-directed with near-miss mutations, ≤12 runes, 1/4 with invalid UTF-8 bytes), start offsets; find / find at every offset / FindNextMatch chain / FindStringMatch / MatchString / MatchRunes compared (span + all captures) with the verif hook that attempts the program at every position in scan order with no candidate finder, prefix filter, length cut-off or bump-along. non-trivial = non-empty input; histogram lists the find modes hit",
-			N: c.N(8000, 400000), Corpus: engCorpus, Gen: g.next, Check: c03Check, Batch: 500,
+			N:    c.N(8000, 400000), Corpus: engCorpus, Gen: g.next, Check: c03Check, Batch: 500,
 		})
 		g2 := &engGen{allowRTL: true, perPat: 6, maxLen: 10, biasFind: true}
 		core.RunLeg(c, core.Leg[engCase]{
 			Name: "Sc", Kind: "correspondence(scan model)",
 			Rule: "patterns/inputs as leg N (inputs ≤ 10 runes); per case the verif hooks tabulate, for every position, the single-position attempt, the candidate finder's answer and where a failed execution leaves the scan position; the Lean model (Model/Scan.lean) runs scan and naive on the tables and evaluates AttemptShape, FinderSound, AfterSound, MinLenSound (the hypotheses of acceleration_transparent); Go's find must equal the model's scan and naive, and all four hypotheses must hold on the engine's own tables",
-			N: c.N(3000, 150000), Gen: g2.next, Check: c03ScanCheck, Batch: 500,
+			N:    c.N(3000, 150000), Gen: g2.next, Check: c03ScanCheck, Batch: 500,
 			// right-to-left `\Z` with a literal prefix: the finder answers (false, end) at the end although the match
 			// sits at end-1 — sound under the scan loop's reading of a false answer (FinderSkipSound), not under the
 			// stronger one the check used to evaluate
@@ -236,7 +236,7 @@ func init() {
 		core.RunLeg(c, core.Leg[engCase]{
 			Name: "Fm", Kind: "correspondence(finder models)",
 			Rule: "patterns/inputs as leg N (inputs ≤ 12 runes, valid UTF-8; the \\G origin anywhere in the input for half of the cases) plus a hand-made corpus (each anchor bit in both directions with the origin inside the input, \\Z's two positions, short inputs) and a small-scope exhaustive part: 38 patterns chosen to reach every path and helper, each on ALL inputs up to 4 (thorough: 6) runes over 2-5 runes taken from the pattern, \\G patterns with every origin; per case the facts findFirstCharDefault reads of the compiled program (anchor bits, Boyer-Moore prefix and case flag, find mode with its prefixes / distances / fixed-distance sets / literal after loop / landmark chain, first-character set, MinRequiredLength; every character set as a membership table over the runes of the input, unicode.ToLower as a table) go to the Lean driver, which runs the model of findFirstCharDefault (Model/Finders.lean) from every position 0..len; the real finder is called at every position through VerifFindFirstChar; (found, position left) and the dispatch path must agree. non-trivial = non-empty input; histogram: finder=<path>:<find mode> per case",
-			N: c.N(4000, 200000), Corpus: append(append([]engCase{}, fmCorpus...), fmDirected(c.N(4, 6))...), Gen: fmGen(g3), Check: c03FindersCheck, Batch: 500,
+			N:    c.N(4000, 200000), Corpus: append(append([]engCase{}, fmCorpus...), fmDirected(c.N(4, 6))...), Gen: fmGen(g3), Check: c03FindersCheck, Batch: 500,
 		})
 		// leg Bm (c03bm.go): the Boyer-Moore prefix against its model and a naive search
 		c03RegisterBm(c, 1)
